@@ -92,6 +92,12 @@ def _machine(cfg: HistoryProperty, res: ShardResult, max_rules: int):
             def throttle(self, ssel, csel, fsel):
                 self._do(["throttle", ssel, csel, fsel])
 
+        if cfg.instr_bias.get("relocate"):
+
+            @rule(which=st.integers(0, 1), esel=st.integers(0, 5), site=st.integers(0, 9))
+            def relocate(self, which, esel, site):
+                self._do(["relocate", which, esel, site])
+
         if cfg.instr_bias.get("inject"):
 
             @rule(o=st.integers(0, 9), d=st.integers(0, 9))
